@@ -10,4 +10,4 @@ RULE = ('Hypothesis-generated equipment library + mesh topology (2-4 ROADMs, fus
         'NLI/signal strictly grows; distinct = sha1 of the case JSON.')
 ASSUMPTIONS = ['ratios compared per channel matched by frequency, tolerance 1e-12 relative (pure float rounding)',
                'design/routing failures are not judged here (owned by C08/C11)']
-CHECKS = [_paths.make_check('C02'), _paths.make_check('C02-raman')]
+CHECKS = [_paths.make_check('C02'), _paths.make_check('C02-raman'), _paths.make_check('C02-multiband')]
